@@ -138,3 +138,66 @@ func TestVerifBoundedValidate(t *testing.T) {
 	}
 	fmt.Printf("VERIF-BOUNDED: ok cases=%d nontrivial=%d\n", n, nontrivial)
 }
+
+// TestVerifBoundedRDN: subject strings of 1..4 pairs over all nine short names and custom OIDs, values with inner
+// spaces, punctuation, '=' and non-ASCII text; the result must be the pairs in reversed order, one attribute per RDN,
+// type from the documented table or the dotted OID, value text unchanged.
+func TestVerifBoundedRDN(t *testing.T) {
+	keys := map[string]asn1.ObjectIdentifier{"C": {2, 5, 4, 6}, "O": {2, 5, 4, 10}, "OU": {2, 5, 4, 11}, "CN": {2, 5, 4, 3}, "SERIALNUMBER": {2, 5, 4, 5},
+		"L": {2, 5, 4, 7}, "ST": {2, 5, 4, 8}, "STREET": {2, 5, 4, 9}, "POSTALCODE": {2, 5, 4, 17}, "1.2.3.4": {1, 2, 3, 4}, "2.5.4.42": {2, 5, 4, 42}}
+	var keyList []string
+	for k := range keys {
+		keyList = append(keyList, k)
+	}
+	values := []string{"x", "My Org", "a=b", "Müller & Söhne", "x.y-z_1/2", "with  two spaces", "=", "ünï"}
+	n := 0
+	check := func(pairs [][2]string, sep string) bool {
+		var parts []string
+		for _, p := range pairs {
+			parts = append(parts, p[0]+"="+p[1])
+		}
+		s := strings.Join(parts, sep)
+		res, err := ParseRDNSequence(s)
+		n++
+		if err != nil {
+			fmt.Printf("VERIF-BOUNDED: violation subject %q rejected: %v\n", s, err)
+			return false
+		}
+		if len(res) != len(pairs) {
+			fmt.Printf("VERIF-BOUNDED: violation subject %q gives %d RDNs\n", s, len(res))
+			return false
+		}
+		for k, p := range pairs {
+			rdn := res[len(pairs)-1-k]
+			if len(rdn) != 1 || !rdn[0].Type.Equal(keys[p[0]]) || rdn[0].Value != p[1] {
+				fmt.Printf("VERIF-BOUNDED: violation subject %q: pair %d (%s=%s) became %v\n", s, k, p[0], p[1], rdn)
+				return false
+			}
+		}
+		return true
+	}
+	for _, k1 := range keyList {
+		for _, v1 := range values {
+			if !check([][2]string{{k1, v1}}, ",") {
+				return
+			}
+			for _, k2 := range keyList {
+				for _, v2 := range values[:4] {
+					if !check([][2]string{{k1, v1}, {k2, v2}}, ", ") {
+						return
+					}
+				}
+			}
+		}
+	}
+	for i := 0; i < 300; i++ { // longer subjects, deterministic pseudo-random choice
+		var pairs [][2]string
+		for j := 0; j < 3+i%6; j++ {
+			pairs = append(pairs, [2]string{keyList[(i*7+j*3)%len(keyList)], values[(i+j*5)%len(values)]})
+		}
+		if !check(pairs, []string{",", ", ", " , "}[i%3]) {
+			return
+		}
+	}
+	fmt.Printf("VERIF-BOUNDED: ok cases=%d\n", n)
+}
